@@ -35,9 +35,13 @@ impl<'a> RegExp<'a> {
             Self::convert_for_case_insensitive_matching(test_cases);
         }
         Self::sort(test_cases);
+        #[cfg(grex_verif)]
+        crate::verif::emit(crate::verif::Event::Pre(test_cases.clone()));
         let grapheme_clusters = Self::grapheme_clusters(test_cases, config);
         let mut dfa = Dfa::from(&grapheme_clusters, true, config);
         let mut ast = Expression::from(dfa, config);
+        #[cfg(grex_verif)]
+        crate::verif::emit(crate::verif::Event::Expr(crate::verif::expression(&ast)));
 
         if config.is_start_anchor_disabled && config.is_end_anchor_disabled {
             let mut regex = Self::convert_expr_to_regex(&ast, config);
@@ -50,11 +54,25 @@ impl<'a> RegExp<'a> {
             if !Self::is_each_test_case_matched_after_rotating_alternations(
                 &regex, &mut ast, test_cases,
             ) {
+                #[cfg(grex_verif)]
+                crate::verif::emit(crate::verif::Event::SelfCheck {
+                    stage: 1,
+                    ok: false,
+                });
                 dfa = Dfa::from(&grapheme_clusters, false, config);
                 ast = Expression::from(dfa, config);
+                #[cfg(grex_verif)]
+                crate::verif::emit(crate::verif::Event::Expr(crate::verif::expression(&ast)));
                 regex = Self::convert_expr_to_regex(&ast, config);
 
                 if !Self::regex_matches_all_test_cases(&regex, test_cases) {
+                    #[cfg(grex_verif)]
+                    crate::verif::emit(crate::verif::Event::SelfCheck {
+                        stage: 2,
+                        ok: false,
+                    });
+                    #[cfg(grex_verif)]
+                    crate::verif::emit(crate::verif::Event::FallbackAlternation);
                     let mut exprs = vec![];
                     for cluster in grapheme_clusters {
                         let literal = Expression::new_literal(cluster, config);
@@ -65,6 +83,8 @@ impl<'a> RegExp<'a> {
             }
         }
 
+        #[cfg(grex_verif)]
+        crate::verif::emit(crate::verif::Event::Final(crate::verif::expression(&ast)));
         Self { ast, config }
     }
 
@@ -117,18 +137,24 @@ impl<'a> RegExp<'a> {
             .iter()
             .map(|it| GraphemeCluster::from(it, config))
             .collect_vec();
+        #[cfg(grex_verif)]
+        crate::verif::clusters(0, &clusters);
 
         if config.is_char_class_feature_enabled() {
             for cluster in clusters.iter_mut() {
                 cluster.convert_to_char_classes();
             }
         }
+        #[cfg(grex_verif)]
+        crate::verif::clusters(1, &clusters);
 
         if config.is_repetition_converted {
             for cluster in clusters.iter_mut() {
                 cluster.convert_repetitions();
             }
         }
+        #[cfg(grex_verif)]
+        crate::verif::clusters(2, &clusters);
 
         clusters
     }
